@@ -17,6 +17,7 @@ PROFILES = [
     (2, dict(_base, name="faulty", p_raise=0.12, p_item_err=0.2, p_item_skip=0.1, p_flush_raise=0.3, p_try=0.25, p_errfut=0.08, p_bad=0.05)),
     (1, dict(_base, name="wide", max_width=6, budget=40, max_depth=6, nkinds=3)),
     (1, dict(_base, name="history", roots=(2, 3), p_keep=0.3)),
+    (1, dict(_base, name="scoped", p_with=0.3, p_override=0.8, p_read=0.25, nvars=1)),
 ]
 
 
